@@ -87,7 +87,7 @@ def cell_accesses(body, T, cellf):
     return out
 
 
-def check(ctx, rep):
+def check(ctx, rep, upto=None):
     rep.trust('C++11 memory model as implemented by Rust atomics; Arc::clone of a fully initialised Arc')
     mac = ctx.mac
     fields = adt_fields(mac, H)
@@ -312,6 +312,8 @@ def check(ctx, rep):
     rep.ob('R4', 'is_set/no-cell-access', not acc_i, ib.where(), 'is_set() only loads the state')
     distinct = len({E, K, new[2]}) == 3
     rep.ob('R4', 'constants-distinct', distinct, '', 'INITIAL=%s, LOADING=%s, COMPLETE=%s are pairwise distinct' % (E, new[2], K))
+    if upto == 'frame':
+        return
     # ---- R5 bounds
     for tr, bound in (('core::marker::Sync', 'T: core::marker::Sync'), ('core::marker::Send', 'T: core::marker::Send')):
         im = [i for i in mac.impls_of(tr) if i.get('self_adt') == H]
